@@ -31,11 +31,17 @@ type duplicateLabelCheckOperator struct {
 	// functions over range vectors in the Prometheus engine. Otherwise they only
 	// clash when they have a sample at the same step.
 	acrossSteps bool
+	// ignoreName makes series clash that differ in the metric name only, while
+	// series with entirely equal label sets count as one series.
+	ignoreName bool
 
 	once sync.Once
 	// groups maps a series ID to the index of the group of series that share its
 	// label set, or to -1 if its label set is unique.
 	groups []int
+	// members maps a series ID to the ID of the first series with entirely equal
+	// labels (ignoreName only).
+	members []uint64
 	// owners maps a group to the ID of the series that delivered a sample first
 	// (acrossSteps), or at the step marked in stamps (otherwise).
 	owners []uint64
@@ -45,6 +51,16 @@ type duplicateLabelCheckOperator struct {
 
 func NewDuplicateLabelCheck(next model.VectorOperator, acrossSteps bool) model.VectorOperator {
 	return &duplicateLabelCheckOperator{next: next, acrossSteps: acrossSteps}
+}
+
+// NewNameClashCheck returns an operator that passes its input through and
+// fails the query when two series that differ in the metric name only carry a
+// sample at any steps of the query. This is how the Prometheus engine treats
+// the operand of a negation: it removes the names from the operand's whole
+// result, in which entirely equal label sets have been merged into one series
+// before, and rejects it if a label set then occurs twice.
+func NewNameClashCheck(next model.VectorOperator) model.VectorOperator {
+	return &duplicateLabelCheckOperator{next: next, acrossSteps: true, ignoreName: true}
 }
 
 func (d *duplicateLabelCheckOperator) Explain() (me string, next []model.VectorOperator) {
@@ -66,11 +82,33 @@ func (d *duplicateLabelCheckOperator) init(series []labels.Labels) {
 	groupOf := make(map[uint64][]int, len(series))
 	d.groups = make([]int, len(series))
 	numGroups := 0
+	if d.ignoreName {
+		full := series
+		series = make([]labels.Labels, len(full))
+		d.members = make([]uint64, len(full))
+		first := make(map[uint64][]int, len(full))
+		for i, s := range full {
+			series[i] = labels.NewBuilder(s).Del(labels.MetricName).Labels(nil)
+			d.members[i] = uint64(i)
+			hash := s.Hash()
+			for _, j := range first[hash] {
+				if labels.Equal(full[j], s) {
+					d.members[i] = uint64(j)
+					break
+				}
+			}
+			first[hash] = append(first[hash], i)
+		}
+	}
 	for i, s := range series {
 		d.groups[i] = -1
 		hash := s.Hash()
 		for _, j := range groupOf[hash] {
 			if !labels.Equal(series[j], s) {
+				continue
+			}
+			if d.members != nil && d.members[j] == d.members[i] {
+				// The same series as far as the check is concerned.
 				continue
 			}
 			if d.groups[j] < 0 {
@@ -85,6 +123,9 @@ func (d *duplicateLabelCheckOperator) init(series []labels.Labels) {
 	if numGroups == 0 {
 		d.groups = nil
 		return
+	}
+	for i, first := range d.members {
+		d.groups[i] = d.groups[first]
 	}
 	d.owners = make([]uint64, numGroups)
 	d.stamps = make([]uint64, numGroups)
@@ -120,6 +161,9 @@ func (d *duplicateLabelCheckOperator) Next(ctx context.Context) ([]model.StepVec
 			group := d.groups[sampleID]
 			if group < 0 {
 				continue
+			}
+			if d.members != nil {
+				sampleID = d.members[sampleID]
 			}
 			if d.stamps[group] == d.epoch && d.owners[group] != sampleID {
 				return nil, ErrDuplicateLabelSet
